@@ -336,3 +336,265 @@ Qed.
 Definition breakout_witness : list stmt := [SImport [(4, Some 6, 4, false); (2, Some 6, 2, false)]].
 Theorem breakout_refuted : exists l a, env (breakout l) a <> env l a.
 Proof. exists breakout_witness, 6. vm_compute. discriminate. Qed.
+
+(* ---- _fix_duplicate_regular_imports (repaired) *)
+Definition cur_sound (cur : list (name * option ialias)) (P : list (name * itgt)) : Prop :=
+  forall a k, cur_lookup cur a = Some (Some k) -> In (ibound k, itarget k) P.
+
+Lemma cur_lookup_cons : forall a0 v cur a,
+  cur_lookup ((a0, v) :: cur) a = if a0 =? a then Some v else cur_lookup cur a.
+Proof.
+  intros a0 v cur a. unfold cur_lookup. cbn [find fst snd]. destruct (a0 =? a); reflexivity.
+Qed.
+
+Lemma dup_regular_aliases_sound : forall als cur P P' kept cur',
+  cur_sound cur P ->
+  (forall p, In p P' <-> In p P) ->
+  dup_regular_aliases cur als = (kept, cur') ->
+  cur_sound cur' (P ++ map (fun al => (ibound al, itarget al)) als) /\
+  (forall p, In p (P' ++ map (fun al => (ibound al, itarget al)) kept) <->
+             In p (P ++ map (fun al => (ibound al, itarget al)) als)).
+Proof.
+  induction als as [|al als IH]; intros cur P P' kept cur' Hs Hp Hd; cbn [dup_regular_aliases] in Hd.
+  - inversion Hd. subst. cbn [map]. rewrite !app_nil_r. split; [exact Hs|exact Hp].
+  - set (k := inorm al) in *.
+    assert (Hk : (ibound k, itarget k) = (ibound al, itarget al)) by apply inorm_bind.
+    assert (Hkeep : forall r c,
+              dup_regular_aliases ((ibound al, Some k) :: cur) als = (r, c) ->
+              kept = k :: r -> cur' = c ->
+              cur_sound cur' (P ++ map (fun al => (ibound al, itarget al)) (al :: als)) /\
+              (forall p, In p (P' ++ map (fun al => (ibound al, itarget al)) kept) <->
+                         In p (P ++ map (fun al => (ibound al, itarget al)) (al :: als)))).
+    { intros r c Hrc Hkept Hcur. subst kept cur'.
+      specialize (IH ((ibound al, Some k) :: cur) (P ++ [(ibound al, itarget al)])
+                     (P' ++ [(ibound al, itarget al)]) r c).
+      destruct IH as [IH1 IH2].
+      - intros a k0 Hl. rewrite cur_lookup_cons in Hl. destruct (ibound al =? a) eqn:Ea.
+        + inversion Hl. subst k0. apply in_or_app. right. left. symmetry. exact Hk.
+        + apply in_or_app. left. apply (Hs a k0 Hl).
+      - intros p. rewrite !in_app_iff. rewrite Hp. tauto.
+      - exact Hrc.
+      - cbn [map]. rewrite <- !app_assoc in IH1, IH2. cbn [app] in IH1, IH2. split; [exact IH1|].
+        intros p. cbn [map]. rewrite Hk. rewrite IH2. rewrite <- ?app_assoc. cbn [app]. tauto. }
+    destruct (cur_lookup cur (ibound al)) as [[k'|]|] eqn:El.
+    + destruct (ialias_eqb k k') eqn:Ek.
+      * apply ialias_eqb_eq in Ek. subst k'.
+        specialize (IH cur (P ++ [(ibound al, itarget al)]) P' kept cur').
+        destruct IH as [IH1 IH2].
+        -- intros a k0 Hl. apply in_or_app. left. exact (Hs a k0 Hl).
+        -- intros p. rewrite in_app_iff, Hp. split; [tauto|]. intros [H|[H|[]]]; [exact H|].
+           subst p. rewrite <- Hk. exact (Hs _ _ El).
+        -- exact Hd.
+        -- cbn [map]. rewrite <- !app_assoc in IH1, IH2. cbn [app] in IH1, IH2. split; assumption.
+      * destruct (dup_regular_aliases ((ibound al, Some k) :: cur) als) as [r c] eqn:Erc.
+        injection Hd as H0 H1. subst kept cur'. apply (Hkeep r c); reflexivity.
+    + destruct (dup_regular_aliases ((ibound al, Some k) :: cur) als) as [r c] eqn:Erc.
+      injection Hd as H0 H1. subst kept cur'. apply (Hkeep r c); reflexivity.
+    + destruct (dup_regular_aliases ((ibound al, Some k) :: cur) als) as [r c] eqn:Erc.
+      injection Hd as H0 H1. subst kept cur'. apply (Hkeep r c); reflexivity.
+Qed.
+
+Lemma cur_lookup_from_prefix : forall (als : list falias) cur a k,
+  cur_lookup (map (fun al => (fbound al, @None ialias)) als ++ cur) a = Some (Some k) ->
+  cur_lookup cur a = Some (Some k).
+Proof.
+  induction als as [|al als IH]; intros cur a k H; cbn [map app] in H; [exact H|].
+  rewrite cur_lookup_cons in H. destruct (fbound al =? a); [discriminate|]. apply IH. exact H.
+Qed.
+
+Lemma dup_regular_from_binds : forall l cur P P',
+  cur_sound cur P ->
+  (forall p, In p P' <-> In p P) ->
+  forall p, In p (P' ++ all_binds (dup_regular_from cur l)) <-> In p (P ++ all_binds l).
+Proof.
+  induction l as [|s l IH]; intros cur P P' Hs Hp p.
+  - cbn [dup_regular_from all_binds flat_map]. rewrite !app_nil_r. apply Hp.
+  - destruct s as [std m als|als]; cbn [dup_regular_from].
+    + unfold all_binds. cbn [flat_map]. rewrite !app_assoc. apply IH.
+      * intros a k Hl. apply cur_lookup_from_prefix in Hl. apply in_or_app. left. exact (Hs a k Hl).
+      * intros q. rewrite !in_app_iff, Hp. tauto.
+    + destruct (dup_regular_aliases cur als) as [kept cur'] eqn:Ed.
+      destruct (dup_regular_aliases_sound als cur P P' kept cur' Hs Hp Ed) as [Hs' Hk].
+      destruct (length kept =? length als).
+      * unfold all_binds. cbn [flat_map stmt_binds]. rewrite !app_assoc. apply IH; [exact Hs'|].
+        intros q. rewrite !in_app_iff, Hp. tauto.
+      * destruct kept as [|k0 kept'] eqn:Ekept.
+        -- unfold all_binds. cbn [flat_map stmt_binds]. rewrite (app_assoc P).
+           apply IH; [exact Hs'|]. intros q. rewrite <- Hk. cbn [map]. rewrite app_nil_r. tauto.
+        -- unfold all_binds. cbn [flat_map stmt_binds]. rewrite !app_assoc. apply IH; [exact Hs'|].
+           intros q. rewrite <- Hk. rewrite !in_app_iff.
+           assert (Hperm : In q (map (fun al => (ibound al, itarget al)) (sort_by ikey (k0 :: kept'))) <->
+                           In q (map (fun al => (ibound al, itarget al)) (k0 :: kept'))).
+           { split; intros H.
+             - eapply Permutation_in; [|exact H]. apply Permutation_map. apply sort_by_perm.
+             - eapply Permutation_in; [|exact H]. apply Permutation_map. apply Permutation_sym. apply sort_by_perm. }
+           rewrite Hperm. tauto.
+Qed.
+
+Theorem dup_regular_env : forall l a, coherent l = true -> env (dup_regular l) a = env l a.
+Proof.
+  intros l a Hc. apply env_same_binds; [exact Hc|].
+  intros p. symmetry. unfold dup_regular.
+  apply (dup_regular_from_binds l [] [] []).
+  - intros a0 k H. unfold cur_lookup in H. cbn [find] in H. discriminate.
+  - tauto.
+Qed.
+
+(* `import 0; import 0, 4 as 6, 2 as 6`: the second statement loses `0` and is re-emitted sorted *)
+Definition dup_regular_witness : list stmt :=
+  [SImport [(0, None, 0, false)]; SImport [(0, None, 0, false); (4, Some 6, 4, false); (2, Some 6, 2, false)]].
+Theorem dup_regular_refuted : exists l a, env (dup_regular l) a <> env l a.
+Proof. exists dup_regular_witness, 6. vm_compute. discriminate. Qed.
+
+(* ---- _fix_duplicate_from_imports *)
+Lemma runs_concat : forall X (p : X -> bool) l cur, concat (runs p l cur) = rev cur ++ l.
+Proof.
+  intros X p l. induction l as [|x l IH]; intros cur; cbn [runs].
+  - destruct cur; cbn [concat rev app]; [reflexivity|]. rewrite !app_nil_r. reflexivity.
+  - destruct (p x).
+    + rewrite IH. cbn [rev]. rewrite <- app_assoc. reflexivity.
+    + destruct cur as [|c cur'].
+      * cbn [concat rev app]. rewrite IH. reflexivity.
+      * cbn [concat]. rewrite IH. cbn [rev app]. rewrite <- !app_assoc. reflexivity.
+Qed.
+
+Lemma in_group_aliases : forall m whole al,
+  In al (group_aliases m whole) <->
+  exists std als al0, In (SFrom std m als) whole /\ In al0 als /\ al = fnorm al0.
+Proof.
+  intros m whole al. unfold group_aliases. rewrite in_flat_map. split.
+  - intros [s [Hs Hal]]. destruct s as [std m' als|als]; [|destruct Hal].
+    destruct (m' =? m) eqn:E; [|destruct Hal]. apply Nat.eqb_eq in E. subst m'.
+    apply in_map_iff in Hal. destruct Hal as [al0 [Heq Hin]]. exists std, als, al0. auto.
+  - intros [std [als [al0 [Hs [Hin Heq]]]]]. exists (SFrom std m als). split; [exact Hs|].
+    rewrite Nat.eqb_refl. apply in_map_iff. exists al0. auto.
+Qed.
+
+Lemma merged_binds : forall std m whole p,
+  In p (stmt_binds (SFrom std m (sort_by fkey (dedup_by falias_eqb (group_aliases m whole))))) <->
+  exists std' als, In (SFrom std' m als) whole /\ In p (stmt_binds (SFrom std' m als)).
+Proof.
+  intros std m whole p. cbn [stmt_binds]. rewrite in_map_iff. split.
+  - intros [al [Hp Hal]].
+    apply (Permutation_in _ (sort_by_perm _ fkey _)) in Hal.
+    apply (proj1 (dedup_by_In _ falias_eqb _ al falias_eqb_eq)) in Hal.
+    apply (proj1 (in_group_aliases _ _ _)) in Hal. destruct Hal as [std' [als [al0 [Hs [Hin Heq]]]]].
+    exists std', als. split; [exact Hs|]. apply in_map_iff. exists al0. split; [|exact Hin].
+    rewrite <- Hp, Heq. symmetry. apply fnorm_bind.
+  - intros [std' [als [Hs Hp]]]. apply in_map_iff in Hp. destruct Hp as [al0 [Hp Hin]].
+    exists (fnorm al0). split; [rewrite <- Hp; apply fnorm_bind|].
+    apply (Permutation_in _ (Permutation_sym (sort_by_perm _ fkey _))).
+    apply (proj2 (dedup_by_In _ falias_eqb _ _ falias_eqb_eq)).
+    apply (proj2 (in_group_aliases _ _ _)). exists std', als, al0. auto.
+Qed.
+
+(* everything the merged group binds is bound by the group *)
+Lemma merge_group_sub : forall whole gr seen p,
+  incl gr whole ->
+  In p (all_binds (merge_group_from seen whole gr)) -> In p (all_binds whole).
+Proof.
+  intros whole. induction gr as [|s gr IH]; intros seen p Hincl Hin; cbn [merge_group_from] in Hin.
+  - destruct Hin.
+  - assert (Hgr : incl gr whole) by (intros x Hx; apply Hincl; right; exact Hx).
+    assert (Hs : In s whole) by (apply Hincl; left; reflexivity).
+    assert (Hkeep : In p (all_binds (s :: merge_group_from seen whole gr)) -> In p (all_binds whole)).
+    { unfold all_binds at 1. cbn [flat_map]. intros H. apply in_app_or in H. destruct H as [H|H].
+      - unfold all_binds. apply in_flat_map. exists s. auto.
+      - apply (IH seen p Hgr H). }
+    destruct s as [std m als|als]; [|exact (Hkeep Hin)].
+    destruct (2 <=? count_mod m whole); [|exact (Hkeep Hin)].
+    destruct (mem m seen); [exact (IH seen p Hgr Hin)|].
+    unfold all_binds at 1 in Hin. cbn [flat_map] in Hin. apply in_app_or in Hin. destruct Hin as [H|H].
+    + apply merged_binds in H. destruct H as [std' [als' [Hw Hp]]].
+      unfold all_binds. apply in_flat_map. exists (SFrom std' m als'). auto.
+    + exact (IH (m :: seen) p Hgr H).
+Qed.
+
+(* everything the group binds is bound by the merged group, or belongs to an already emitted module *)
+Lemma merge_group_sup : forall whole gr seen p,
+  incl gr whole ->
+  In p (all_binds gr) ->
+  In p (all_binds (merge_group_from seen whole gr)) \/
+  exists std m als, In (SFrom std m als) gr /\ In p (stmt_binds (SFrom std m als)) /\ mem m seen = true.
+Proof.
+  intros whole. induction gr as [|s gr IH]; intros seen p Hincl Hin.
+  - destruct Hin.
+  - assert (Hgr : incl gr whole) by (intros x Hx; apply Hincl; right; exact Hx).
+    assert (Hs : In s whole) by (apply Hincl; left; reflexivity).
+    unfold all_binds in Hin. cbn [flat_map] in Hin. apply in_app_or in Hin.
+    cbn [merge_group_from].
+    assert (Hkeep : In p (all_binds (s :: merge_group_from seen whole gr)) \/
+                    exists std m als, In (SFrom std m als) (s :: gr) /\
+                                      In p (stmt_binds (SFrom std m als)) /\ mem m seen = true).
+    { destruct Hin as [H|H].
+      - left. unfold all_binds. cbn [flat_map]. apply in_or_app. left. exact H.
+      - destruct (IH seen p Hgr H) as [H'|[std [m [als [H1 [H2 H3]]]]]].
+        + left. unfold all_binds. cbn [flat_map]. apply in_or_app. right. exact H'.
+        + right. exists std, m, als. split; [right; exact H1|auto]. }
+    destruct s as [std m als|als]; [|exact Hkeep].
+    destruct (2 <=? count_mod m whole); [|exact Hkeep].
+    destruct (mem m seen) eqn:Eseen.
+    + destruct Hin as [H|H].
+      * right. exists std, m, als. split; [left; reflexivity|auto].
+      * destruct (IH seen p Hgr H) as [H'|[std' [m' [als' [H1 [H2 H3]]]]]]; [left; exact H'|].
+        right. exists std', m', als'. split; [right; exact H1|auto].
+    + destruct Hin as [H|H].
+      * left. unfold all_binds. cbn [flat_map]. apply in_or_app. left.
+        apply merged_binds. exists std, als. auto.
+      * destruct (IH (m :: seen) p Hgr H) as [H'|[std' [m' [als' [H1 [H2 H3]]]]]].
+        -- left. unfold all_binds. cbn [flat_map]. apply in_or_app. right. exact H'.
+        -- unfold mem in H3. cbn [existsb] in H3. apply orb_true_iff in H3. destruct H3 as [H3|H3].
+           ++ apply Nat.eqb_eq in H3. subst m'. left. unfold all_binds. cbn [flat_map].
+              apply in_or_app. left. apply merged_binds. exists std', als'. split; [apply Hgr; exact H1|exact H2].
+           ++ right. exists std', m', als'. split; [right; exact H1|auto].
+Qed.
+
+Lemma merge_group_binds : forall gr p,
+  In p (all_binds (merge_group_from [] gr gr)) <-> In p (all_binds gr).
+Proof.
+  intros gr p. split.
+  - apply merge_group_sub. apply incl_refl.
+  - intros H. destruct (merge_group_sup gr gr [] p (incl_refl gr) H) as [H'|[std [m [als [_ [_ H3]]]]]];
+      [exact H'|discriminate].
+Qed.
+
+Lemma all_binds_concat : forall (ls : list (list stmt)) (f : list stmt -> list stmt) p,
+  (forall gr, In p (all_binds (f gr)) <-> In p (all_binds gr)) ->
+  (In p (all_binds (flat_map f ls)) <-> In p (all_binds (concat ls))).
+Proof.
+  intros ls f p H. induction ls as [|gr ls IH]; cbn [flat_map concat]; [tauto|].
+  unfold all_binds in *. rewrite !flat_map_app, !in_app_iff, IH, H. tauto.
+Qed.
+
+Theorem dup_from_same_binds : forall l, same_binds l (dup_from l).
+Proof.
+  intros l p. unfold dup_from. symmetry.
+  rewrite (all_binds_concat (runs is_from l []) _ p).
+  - rewrite runs_concat. cbn [rev app]. tauto.
+  - intros gr. destruct gr as [|s gr']; [tauto|].
+    destruct (is_from s); [apply merge_group_binds|tauto].
+Qed.
+
+Theorem dup_from_env : forall l a, coherent l = true -> env (dup_from l) a = env l a.
+Proof. intros l a Hc. apply env_same_binds; [exact Hc|apply dup_from_same_binds]. Qed.
+
+(* `from 0 import 2; from 4 import 2; from 0 import 2`: the third statement is merged into the first *)
+Definition dup_from_witness : list stmt :=
+  [SFrom false 0 [(2, None)]; SFrom false 4 [(2, None)]; SFrom false 0 [(2, None)]].
+Theorem dup_from_refuted : exists l a, env (dup_from l) a <> env l a.
+Proof. exists dup_from_witness, 2. vm_compute. discriminate. Qed.
+
+(* non-vacuity: a coherent list on which every rule does something *)
+Definition coherent_example : list stmt :=
+  [SFrom false 4 [(6, None); (2, Some 8)]; SFrom false 4 [(2, None)];
+   SImport [(10, None, 10, true); (0, Some 12, 0, false)];
+   SFrom false 0 [(2, Some 14)]; SImport [(10, None, 10, true)]].
+Example coherent_example_ok :
+  coherent coherent_example = true /\
+  sort_stmts coherent_example <> coherent_example /\
+  dup_from coherent_example <> coherent_example /\
+  dup_regular coherent_example <> coherent_example /\
+  breakout coherent_example <> coherent_example /\
+  sort_aliases coherent_example <> coherent_example /\
+  remove_unused [2; 12] coherent_example <> coherent_example.
+Proof. vm_compute. split; [reflexivity|]. repeat split; intro H; discriminate H. Qed.
